@@ -136,7 +136,7 @@ JOBS.update({
         jobs=[J("rng", "rel", 8000, 400000), J("rng", "san", 1500, 50000)],
         wall_quick=55, wall_thorough=900,
         assumptions=["threads interleave at call granularity (a race inside one call is out of reach of a serialising scheduler)",
-                     "24 sampler kinds with fixed admissible parameters; seeds 0, 1, 2^64-1, the dummy seed and random ones"]),
+                     "38 sampler kinds (every sampling function of cmb_random.h except the hardware seed) with fixed admissible parameters; seeds 0, 1, 2^64-1, the dummy seed and random ones"]),
     "C19": dict(level="exploration",
         rule="seed -> cimba_run_experiment called for real with wrapped pthread_create/join/cpu-count: 1-9 worker threads parked and released by the baton scheduler at yield points inside the trial function, 1-48 trials of eight content kinds, element sizes 9-200 bytes, one common trial function or (a quarter of the runs) your_trial_func == NULL with the function stored as the first member of every trial struct; exactly-once ledger and byte comparison with each trial run alone in a fresh thread and with a one-after-another run; "
              "distinct = distinct trace hashes; non-trivial = some worker ran more than one trial and the baton changed hands",
